@@ -27,8 +27,9 @@ if VERIF not in sys.path:
     sys.path.insert(0, VERIF)
 
 TRUSTED_BASE = [
-    "T1 loop-cutting instrumentation preserves behaviour (differential native samples each run)",
-    "T2 symbolic proxy semantics == CPython for the operators used (pyvc.selftest each run)",
+    "T1 loop-cutting instrumentation preserves behaviour (cross-checked each run: every contract is also evaluated natively on the real, "
+    "uninstrumented function for the solver's witness and sampled inputs)",
+    "T2 symbolic proxy semantics == CPython for the operators used (same native cross-check; a proved contract that fails natively is reported)",
     "T3 z3 5.1 / cvc5 1.0.3 soundness",
     "T5 spec functions / specification tables express the property statement",
     "Python int arithmetic modelled as mathematical integers (exact: Python ints are unbounded)",
